@@ -209,6 +209,8 @@ def robustness_grid(da, rng: random.Random, tier_: str, out: Outcome) -> list[di
     fixed += [('manifest-live', 'drm', 'all-noenc'), ('tears-manifest', 'drm', 'all-noenc'), ('tears-media', 'drm', 'all-noenc'),
               ('manifest-live', 'drm', 'all-badloc'), ('media-enc', 'drm', 'all-badloc'), ('init-enc', 'drm', 'all-badloc'), ('mps-manifest', 'drm', 'all-badloc'),
               ('mps-manifest', 'depth', 'int_max'),
+              # a bare time of day where a date-time is expected (only the live paths read the start time)
+              ('manifest-live', 'start', 'isotime'), ('media-num', 'start', 'isotime'), ('mps-manifest', 'start', 'isotime'), ('patch', 'start', 'isotime'),
               ('manifest-live', 'mup', 'zero-patch'), ('media-num', 'ping__interval', 'zero'), ('media-num', 'scte35__interval', 'zero'),
               ('media-vod', 'ping__count', 'huge'), ('manifest-live', 'ping__timescale', 'zero'), ('media-vod', 'ping__interval', 'zero'),
               ('media-vod', 'ping__interval', 'negative'), ('manifest-vod', 'ping__interval', 'zero')]
@@ -250,7 +252,11 @@ def robustness_grid(da, rng: random.Random, tier_: str, out: Outcome) -> list[di
                     if fam == 'time':
                         chosen.extend((rt, name, vc) for rt in routes)      # few options reach the clock: every encoding of it
                         continue
-                    chosen.append((rng.choice(routes), name, vc))
+                    # always on the family's live route (most options are only read there), and on a seeded other one
+                    primary = {'manifest': 'manifest-live', 'media': 'media-num'}[fam]
+                    if primary in routes:
+                        chosen.append((primary, name, vc))
+                    chosen.append((rng.choice([r for r in routes if r != primary] or routes), name, vc))
         combos = chosen
     capped: set[tuple[str, str | None]] = set()
     for cls, name, vc in fixed + combos:
